@@ -36,10 +36,13 @@ def run(ctx):
     ctx.evaluations += res2['kill_cases']; ctx.samples += res2['samples'][:2]; monitor_failures(ctx, res2['fails'], findings, 'server-kill monitor', rp)
     res3 = sys_c11.garbage_cases(os.path.join(w, 'garbage'), ctx.seed, 12 if ctx.quick() else 300)
     ctx.evaluations += res3['garbage_frames']; monitor_failures(ctx, res3['fails'], findings, 'garbage-frame monitor', rp)
+    res4 = sys_c11.hostile_first_requests(os.path.join(w, 'hostile'))
+    ctx.evaluations += res4['hostile_first_requests'] + res4['requests_ok_after']; ctx.cov['hostile_first_requests'] = res4['hostile_first_requests']; monitor_failures(ctx, res4['fails'], findings, 'hostile-first-request monitor', rp)
     ctx.cov.update(fake_server_cases=res['fake_server_cases'], kill_cases=res2['kill_cases'], garbage_frames=res3['garbage_frames'], requests_ok_alongside_garbage=res3['requests_ok_alongside'])
     ctx.rules.append('h_frames: codec — generated requests (all five kinds, compile requests with 0-4 arguments and 0-3 environment pairs of arbitrary bytes) encoded by bincode against encReq; their encodings mutated (byte changed, cut, extended, length fields overwritten incl. 2^64-1) and noise decoded by bincode against decReq; '
                      'connections — streams of 1-5 frames (valid, mutated, noise, bare tags), oversized and 2^31+ length prefixes, streams cut mid-frame, cut into reads of 1 byte .. everything, on the real server next to a witness connection; non-trivial = connections the server ended, decode errors')
     ctx.rules.append('fake server: 2 (ignore flag) x {7 first-response scripts; for CompileStarted 11 second-read scripts incl. EOF in header / partial header / body, reset, garbage} = 34 cases, the whole alphabet; '
+                     'hostile first requests: on a fresh server a raw, well-formed Compile frame for gcc / clang with a missing working directory, a detection-derailing option, no arguments, --version; then ordinary clients for the same compiler; '
                      'kills: SIGKILL during compiler detection (before the ack), preprocessing, compilation, and no server running; garbage: random bytes, oversized length, undecodable and short frames')
     ctx.assumptions += ['which io::ErrorKind the kernel reports for a killed peer is an input symbol (EOF vs reset); a reset after the ack is an sccache error unless SCCACHE_IGNORE_SERVER_IO_ERROR=1 — allowed by the last sentence of the statement, recorded']
 
